@@ -4,6 +4,11 @@ Run by hand only, after reviewing why the regenerated table changed (a fix: comm
 translator extension); the reason goes into the commit message and DESIGN.md."""
 import os, re
 V = os.path.dirname(os.path.dirname(os.path.abspath(__file__)))
+import subprocess
+subprocess.run([os.path.join(V, "bin/translator"), "/repo", os.path.join(V, "coq/theories/Gen")], check=True, stdout=subprocess.DEVNULL, stderr=subprocess.DEVNULL,
+               env=dict(os.environ, GOFLAGS="-mod=mod", GOPROXY="off", GOSUMDB="off", GOTOOLCHAIN="local"))
+if os.path.exists(os.path.join(V, "coq/theories/Gen/.stamp")):
+    os.remove(os.path.join(V, "coq/theories/Gen/.stamp"))
 gen = open(os.path.join(V, "coq/theories/Gen/Printers.v")).read()
 i = gen.index("Definition printers : list printer := [")
 body = gen[i + len("Definition printers : list printer := ["):]
